@@ -10,7 +10,7 @@ def knobs(r, i):
 
 
 def run(v, tier, seed, replay):
-    cases, impl, model = seqcheck.run(v, tier, seed, replay, "C14", ["C14"], tree_oracles=["no_panic", "exactly_once", "tree", "contexts", "attachments", "retained"],
+    cases, impl, model = seqcheck.run(v, tier, seed, replay, "C14", ["C14"], tree_oracles=["no_panic", "exactly_once", "tree", "contexts", "attachments_owner", "retained"],
                                       knobs=knobs, extra_cases=c13.extra_for(KINDS), n_quick=(1800, 300), n_thorough=(60000, 5000),
                                       nontrivial=lambda lines, tr: any(" adPoll " in l for l in lines),
                                       assumptions=["scripted inner stream/sink (futures-core / futures-sink traits), polled by hand"])
